@@ -167,6 +167,22 @@ class ArgumentParser(argparse.ArgumentParser, Generic[PydanticModelT]):
 
                 assert isinstance(argument, str)
 
+                # Arguments of nested models (argument groups) are reported by their own name,
+                # not by the name of the group, which is no argument of the CLI
+                while len(sources) > 1 and isinstance(sources[1], str):
+                    group = PydanticField(argument, fields[argument])
+
+                    if not group.is_a(BaseModel) or group.is_subcommand():
+                        break
+
+                    if sources[1] not in group.model_type.model_fields:
+                        break
+
+                    model = group.model_type
+                    fields = model.model_fields
+                    sources = sources[1:]
+                    argument = sources[0]
+
                 if (
                     self.extra_defaults is not None
                     and model in self.extra_defaults
